@@ -37,3 +37,4 @@ from . import base_fit          # noqa
 from . import util_init         # noqa
 from . import fits              # noqa
 from . import constraints_c     # noqa
+from . import supervised        # noqa
